@@ -52,7 +52,7 @@ def main():
             print(json.dumps(out, indent=1))
             return 2
         if args.baseline:
-            rc, o = run(['/tmp/seedtools/baseline_check.sh', wt])
+            rc, o = run([os.path.join(VERIF, 'tools', 'baseline_check.sh'), wt], env={'PYTHONPATH': wt})
             out['baseline_ok'] = rc == 0
             out['baseline_out'] = o.strip().split('\n')[-3:]
         rc0, o0 = run(['/venv/bin/python', os.path.join(seed, 'demo.py')], env={'PLAYBACK_ROOT': '/repo'}, cwd=tempfile.gettempdir(), timeout=300)
